@@ -19,6 +19,7 @@ import (
 const prelude = `
 getinfo, getlocal, setlocal, getupvalue, setupvalue = debug.getinfo, debug.getlocal, debug.setlocal, debug.getupvalue, debug.setupvalue
 seen = {}
+OPTS = {"Slf", "lSf", "fSl", "nSlf", "Sluf", "flnSu"}
 function enum(id, lvl, phase)
   local i = 1
   while true do
@@ -47,9 +48,16 @@ function Q(id, extra)
     if inf then RI(id, extra, inf.what, inf.currentline, inf.linedefined, inf.lastlinedefined) end
   end
   for lvl = 1, 2 do
-    local inf = getinfo(lvl + 1, "Slf")
+    local inf = getinfo(lvl + 1, OPTS[(id + lvl) % 6 + 1])
     if inf == nil then break end
     RI(id, lvl, inf.what, inf.currentline, inf.linedefined, inf.lastlinedefined)
+    -- the same frame asked for one item at a time, and with the default selection
+    local a, b, c = getinfo(lvl + 1, "l"), getinfo(lvl + 1, "S"), getinfo(lvl + 1)
+    if a.currentline ~= inf.currentline or c.currentline ~= inf.currentline
+       or b.linedefined ~= inf.linedefined or c.linedefined ~= inf.linedefined
+       or b.lastlinedefined ~= inf.lastlinedefined or c.lastlinedefined ~= inf.lastlinedefined or b.what ~= inf.what then
+      RX(id, lvl)
+    end
     if inf.func then
       local byf = getinfo(inf.func, "Sl")
       RF(id, lvl, byf.linedefined, byf.lastlinedefined, byf.currentline)
@@ -149,6 +157,7 @@ type runResult struct {
 	ByFunc       map[[2]int][3]int // getinfo(func, "Sl"): linedefined, lastlinedefined, currentline
 	SetRet       map[int]*string   // QS/QU: returned name
 	ThreadSetBad []int             // QT: setlocal(co, 1, 1, v) did not change exactly that variable
+	Incons       [][2]int          // (point, level): getinfo answers differ with the selection of items asked for
 	SetSeen      map[int]bool
 }
 
@@ -164,10 +173,16 @@ func lvInt(v lua.LValue) *int64 {
 }
 
 // runSource loads and runs one rendered program in a fresh state.
-func runSource(src []byte) (res *runResult) {
+// variant 1 runs the same program in a state whose data stack and call stack start small and grow
+// (reallocation steps while frames are live); what is observed must not depend on it.
+func runSource(src []byte, variant int) (res *runResult) {
 	res = &runResult{ByFunc: map[[2]int][3]int{}, Scen: map[int]string{}, ScenOK: map[int]bool{}, Info: map[[2]int]frameInfo{},
 		Locals: map[key3][]obsBinding{}, Upvals: map[key3][]obsBinding{}, SetRet: map[int]*string{}, SetSeen: map[int]bool{}}
 	L := lua.NewState()
+	if variant == 1 {
+		L.Close()
+		L = lua.NewState(lua.Options{RegistrySize: 128, RegistryMaxSize: 1 << 22, RegistryGrowStep: 8, MinimizeStackMemory: true})
+	}
 	defer L.Close()
 	// a program that does not end (possible only when the interpreter misbehaves: every generated
 	// loop is bounded) is cut off; the cancellation error is then that run's observation
@@ -187,6 +202,10 @@ func runSource(src []byte) (res *runResult) {
 		if !lua.LVAsBool(L.Get(2)) {
 			res.ThreadSetBad = append(res.ThreadSetBad, L.CheckInt(1))
 		}
+		return 0
+	}))
+	L.SetGlobal("RX", L.NewFunction(func(L *lua.LState) int {
+		res.Incons = append(res.Incons, [2]int{L.CheckInt(1), L.CheckInt(2)})
 		return 0
 	}))
 	L.SetGlobal("RF", L.NewFunction(func(L *lua.LState) int {
